@@ -19,7 +19,7 @@ MANIFEST = dict(
     technique="Lean 4 proof (recursive model of each loop = closed-form specification, by induction on the outcome list / condition sequence / count) + differential correspondence",
     ref='5/C15')
 
-ALL_FIELDS = ('trace', 'log', 'attempts', 'live', 'evals')
+ALL_FIELDS = ('trace', 'log', 'attempts', 'live', 'evals', 'prompt')
 
 
 def proj_resub(d):
@@ -147,8 +147,9 @@ def oracle_resub(case, gd):
         for i in range(2, got_n + 1):
             want += [f's{i}', f't{i - 1}']
         want += [f't{got_n}'] if got_n else []
-        if log != want:
-            return 'sequence: not the log of the Wait-window schedule (s1 s2 t1 s3 t2 ...)'
+        seq = [x for i in range(1, got_n + 1) for x in (f's{i}', f't{i}')]
+        if log != want and log != seq:
+            return 'sequence: neither sequential nor the log of the Wait-window schedule (s1 s2 t1 s3 t2 ...)'
     elif 'catchFallback' not in kc:
         seq = [x for i in range(1, got_n + 1) for x in (f's{i}', f't{i}')]
         if log != seq:
@@ -166,6 +167,8 @@ def oracle_resub(case, gd):
         return 'values: the values of the attempts are not forwarded in order'
     if got_term != term:
         return f'terminal: got {got_term}, defined {term}'
+    if gd.get('prompt') == '0':
+        return 'cancellation: Retry did not stop as soon as the context was cancelled (it waited for the delay)'
     return None
 
 
@@ -194,7 +197,7 @@ def check(ctx):
              'outcomes with <= 2 values ending in completion or error + seeded longer lists (<= 8 attempts, <= 3 values) x {sync, goroutine} attempts (+ the driven Wait-window schedule for lists <= 2) x downstream leaving '
              'after 1..3 values x (Retry) context cancelled before subscribing / before each notification of each attempt / in each teardown; compared EQUAL: delivered trace '
              'with contexts, subscribe/teardown event log, number of subscriptions, max attempts alive, condition evaluations; oracle on the implementation alone: '
-             'sequential log, closed-form count, forwarded values, terminal; non-trivial = at least two attempts or a delivered value',
+             'sequential log, closed-form count, forwarded values, terminal, promptness of a cancellation during a 3 s delay; non-trivial = at least two attempts or a delivered value',
         assumptions=['attempts that run on goroutines are scheduled with one P (GOMAXPROCS(1)) so that the run is deterministic (the terminal arrives while the operator is in Wait()); '
                      'the other asynchronous schedule - terminal before the operator reaches Wait() - is driven explicitly by mode=tdrace (known finding: Wait window)'],
         extra={'distribution': dist})
